@@ -18,6 +18,7 @@ Hypotheses that appear and why:
 -/
 import SwV.Lemmas.C17b
 import SwV.Lemmas.C17c
+import SwV.Lemmas.C17d
 import SwV.Gen.C17
 namespace SwV.Props.C17
 open SwV.Model.C17 SwV.Spec.C17 SwV.Lemmas.C17
@@ -509,6 +510,123 @@ theorem readAt_after_manifestize (data : Nat → Nat → Nat) (k base : Nat) (ns
     (fun c hc => hfs c (hp.1.mem_iff.1 hc)) hmax p offset
   intro r
   exact ⟨this.1, fun i hi => (manifestize_preserves data k base ns _ _).1 (this.2.2.2.1 i hi)⟩
+
+/-! ### fetch faults (cache misses; `ok fid` = the fetch of blob fid succeeds) — for ALL oracles -/
+
+/-- the fault-free result in readAtF's shape (0 = nil, 1 = io.EOF) -/
+def liftRead (r : Nat × Bool × List Nat) : Nat × Nat × List Nat := (r.1, if r.2.1 then 1 else 0, r.2.2)
+
+theorem readAtF_code (ok : Nat → Bool) (data : Nat → Nat → Nat) (views : List View) (fileSize : Nat) (p : List Nat) (offset : Nat) :
+    (readAtF ok data views fileSize p offset).2.1 = 2 ↔
+      (readLoopF ok data views { pos := offset, rem := p.length, acc := [] }).2 = true := by
+  unfold readAtF
+  simp only []
+  generalize readLoopF ok data views { pos := offset, rem := p.length, acc := [] } = r
+  obtain ⟨s, e⟩ := r
+  cases e with
+  | true => simp
+  | false =>
+    simp only [Bool.false_eq_true, if_false, iff_false]
+    split <;> simp
+
+/-- whatever fails: if ReadAt does not report the fetch error, its whole result is the fault-free result -/
+theorem readAtF_no_error (ok : Nat → Bool) (data : Nat → Nat → Nat) (views : List View) (fileSize : Nat) (p : List Nat) (offset : Nat)
+    (h : (readAtF ok data views fileSize p offset).2.1 ≠ 2) :
+    readAtF ok data views fileSize p offset = liftRead (readAt data views fileSize p offset) := by
+  have hcode := readAtF_code ok data views fileSize p offset
+  cases he : (readLoopF ok data views { pos := offset, rem := p.length, acc := [] }).2 with
+  | true => exact absurd (hcode.2 he) h
+  | false =>
+    have hs := readLoopF_ok ok data views _ he
+    simp [readAtF, liftRead, readAt, readAcc, he, hs]
+
+/-- the error is reported exactly when a blob the fault-free read fetches cannot be fetched -/
+theorem readAtF_error_iff (ok : Nat → Bool) (data : Nat → Nat → Nat) (views : List View) (fileSize : Nat) (p : List Nat) (offset : Nat) :
+    (readAtF ok data views fileSize p offset).2.1 = 2 ↔
+      ∃ f ∈ usedFids data views { pos := offset, rem := p.length, acc := [] }, ok f = false := by
+  rw [readAtF_code]
+  have hiff := readLoopF_err_iff ok data views { pos := offset, rem := p.length, acc := [] }
+  constructor
+  · intro h
+    apply Classical.byContradiction
+    intro hcon
+    have : ∀ f ∈ usedFids data views { pos := offset, rem := p.length, acc := [] }, ok f = true := by
+      intro f hf
+      cases hk : ok f with
+      | true => rfl
+      | false => exact absurd ⟨f, hf, hk⟩ hcon
+    rw [hiff.2 this] at h; cases h
+  · rintro ⟨f, hf, hk⟩
+    cases he : (readLoopF ok data views { pos := offset, rem := p.length, acc := [] }).2 with
+    | true => rfl
+    | false => have := hiff.1 he f hf; rw [hk] at this; cases this
+
+/-- no spurious errors: if every fetch succeeds the result is the fault-free one -/
+theorem readAtF_all_ok (ok : Nat → Bool) (hok : ∀ f, ok f = true) (data : Nat → Nat → Nat) (views : List View) (fileSize : Nat) (p : List Nat) (offset : Nat) :
+    readAtF ok data views fileSize p offset = liftRead (readAt data views fileSize p offset) := by
+  apply readAtF_no_error
+  intro h
+  obtain ⟨f, _, hk⟩ := (readAtF_error_iff ok data views fileSize p offset).1 h
+  rw [hok f] at hk; cases hk
+
+/-- a view that covers a byte of the window and whose blob cannot be fetched makes ReadAt fail -/
+theorem readAtF_fault_is_error (ok : Nat → Bool) (data : Nat → Nat → Nat) (views : List View) (hs : VSorted views)
+    (fileSize : Nat) (p : List Nat) (offset : Nat) (w : View) (hw : w ∈ views) (q : Nat) (hc : vcov w q)
+    (h1 : offset ≤ q) (h2 : q < offset + p.length) (hk : ok w.fid = false) :
+    (readAtF ok data views fileSize p offset).2.1 = 2 :=
+  (readAtF_error_iff ok data views fileSize p offset).2
+    ⟨w.fid, usedFids_of_cov data views { pos := offset, rem := p.length, acc := [] } hs w hw q hc h1 h2, hk⟩
+
+/-- FAULT THEOREM, part 1.  For every chunk tree, admissible order, window, buffer and EVERY fetch oracle: ReadAt either
+    reports the fetch error, or returns exactly what the fault-free read returns — n = min |p| (fileSize-offset) bytes, each
+    the byte of a newest chunk covering its position or 0 in holes/tail, EOF iff the window reaches the file size.
+    Bytes handed out with a nil/EOF error are never anything but overlay bytes. -/
+theorem readAtF_overlay_or_error (ok : Nat → Bool) (data : Nat → Nat → Nat) (ns : List Node) (hw : wellFormed ns = true)
+    (order : List Chunk) (ho : IsOrderOf order 0 maxInt64 ns)
+    (fileSize : Nat) (hfs : ∀ c ∈ flatten ns, c.off + c.size ≤ fileSize) (hmax : fileSize ≤ maxInt64)
+    (p : List Nat) (offset : Nat) :
+    let r := readAtF ok data (viewsOfOrder order 0 maxInt64) fileSize p offset
+    r.2.1 = 2 ∨
+    (r.1 = min p.length (fileSize - offset) ∧ (r.2.1 = 1 ↔ fileSize ≤ offset + p.length) ∧ r.2.2.length = p.length ∧
+      (∀ i, i < r.1 → ByteOk data (flatten ns) (offset + i) (r.2.2.getD i 0)) ∧ r.2.2.drop r.1 = p.drop r.1) := by
+  intro r
+  by_cases h : r.2.1 = 2
+  · exact Or.inl h
+  · right
+    have hr : r = liftRead (readAt data (viewsOfOrder order 0 maxInt64) fileSize p offset) := readAtF_no_error ok data _ fileSize p offset h
+    obtain ⟨a1, a2, a3, a4, a5⟩ := readAt_eq_overlay data ns hw order ho fileSize hfs hmax p offset
+    rw [hr]
+    unfold liftRead
+    refine ⟨a1, ?_, a3, a4, a5⟩
+    simp only [a2]
+    by_cases hle : fileSize ≤ offset + p.length <;> simp [hle]
+
+/-- FAULT THEOREM, part 2.  If a byte of the window is covered by a chunk and no newest chunk covering it can be fetched,
+    ReadAt reports an error (it cannot obtain the bytes the property promises, so it must not succeed). -/
+theorem readAtF_unfetchable_is_error (ok : Nat → Bool) (data : Nat → Nat → Nat) (ns : List Node) (hw : wellFormed ns = true)
+    (order : List Chunk) (ho : IsOrderOf order 0 maxInt64 ns) (fileSize : Nat) (p : List Nat) (offset : Nat)
+    (q : Nat) (h1 : offset ≤ q) (h2 : q < offset + p.length) (hq : q < maxInt64)
+    (hcov : ∃ c ∈ flatten ns, covers c q) (hbad : ∀ c, Newest (flatten ns) q c → ok c.fid = false) :
+    (readAtF ok data (viewsOfOrder order 0 maxInt64) fileSize p offset).2.1 = 2 := by
+  have ho' : IsOrderOf order 0 (0 + maxInt64) ns := by simpa using ho
+  obtain ⟨hs, _, hsem⟩ := views_eq_overlay ns hw 0 maxInt64 (by decide) order ho'
+  obtain ⟨s1, s2⟩ := hsem q (Nat.zero_le q) (by omega)
+  apply Classical.byContradiction
+  intro hne
+  have hnone : ∀ w ∈ viewsOfOrder order 0 maxInt64, ¬ vcov w q := by
+    intro w hw' hc
+    obtain ⟨c, hn, hfid, _, _⟩ := s1 w hw' hc
+    exact hne (readAtF_fault_is_error ok data _ hs fileSize p offset w hw' q hc h1 h2 (by rw [hfid]; exact hbad c hn))
+  obtain ⟨c, hc, hcc⟩ := hcov
+  exact s2 hnone c hc hcc
+
+example : (readAtF (fun _ => false) (fun f i => f * 10 + i) (viewFromChunks [.data ⟨0, 2, 1, 1, 1⟩] 0 maxInt64) 2 [9, 9] 0).2.1 = 2 := by
+  have hr : resolveList 0 (0 + maxInt64) [.data ⟨0, 2, 1, 1, 1⟩] = [⟨0, 2, 1, 1, 1⟩] := by
+    simp [resolveList, resolveNode, outside, maxInt64]
+  have hsrt : sortChunks [⟨0, 2, 1, 1, 1⟩] = [⟨0, 2, 1, 1, 1⟩] := List.mergeSort_of_pairwise (by decide)
+  unfold viewFromChunks nonOverlapping
+  rw [hr, hsrt]
+  decide
 
 /-! ### StreamContent (known finding `StreamContent/hole-not-zero-filled`)
 
